@@ -9,6 +9,8 @@ package checks
 // mirror that member's database on every monitored table.
 
 import (
+	"sync"
+	"sync/atomic"
 	"context"
 	"fmt"
 	"time"
@@ -205,6 +207,38 @@ func c16LeaderSession(r *ev.Run, m *dyn.Model, scenario string, bFirst bool, nMo
 		flip(A, B)
 		write(A, "T1", 1)
 		leader = A
+	case "lose-leadership-inside-reconnect":
+		// The connection to A is cut; while the client is restarting its monitors on A
+		// (first monitor reply received: the leader check is already behind it) A loses
+		// the leadership to B. Which monitor is restarted first is up to the client; when
+		// it is not the _Server one, the loss reaches the client as initial contents.
+		var once sync.Once
+		var flipped int32
+		installClientHook()
+		c16WinMu.Lock()
+		c16Window = func() {
+			once.Do(func() {
+				_ = A.setLeader(false)
+				_ = B.setLeader(true)
+				atomic.StoreInt32(&flipped, 1)
+			})
+		}
+		c16WinMu.Unlock()
+		A.px.CutAll()
+		// wait (bounded) until the flip has happened
+		for i := 0; i < 500 && atomic.LoadInt32(&flipped) == 0; i++ {
+			time.Sleep(10 * time.Millisecond)
+		}
+		c16WinMu.Lock()
+		c16Window = nil
+		c16WinMu.Unlock()
+		once.Do(func() { // the pause point was never reached
+			_ = A.setLeader(false)
+			_ = B.setLeader(true)
+		})
+		r.Count("leader.flips-inside-a-reconnect", int(atomic.LoadInt32(&flipped)))
+		write(B, "T0", 1)
+		leader = B
 	case "refused-by-new-leader":
 		B.px.Refuse(3)
 		flip(B, A)
@@ -271,7 +305,7 @@ func c16LeaderSession(r *ev.Run, m *dyn.Model, scenario string, bFirst bool, nMo
 	return fs
 }
 
-var c16LeaderScenarios = []string{"flip", "flip-lose-first", "no-leader-for-a-while", "cut-then-flip", "flip-then-cut-new-leader", "there-and-back", "refused-by-new-leader"}
+var c16LeaderScenarios = []string{"lose-leadership-inside-reconnect", "flip", "flip-lose-first", "no-leader-for-a-while", "cut-then-flip", "flip-then-cut-new-leader", "there-and-back", "refused-by-new-leader"}
 
 // c16LeaderPart runs the leader scenarios assigned to this batch.
 func c16LeaderPart(r *ev.Run, m *dyn.Model, batch, nb int) {
